@@ -149,6 +149,13 @@ class Reader:
         self.zeros_boundaries = []
 
         self.memory_segments: List[MemorySegment] = []
+        # the writer never produces overlapping segments; a table that has them is damaged
+        ordered = sorted((start, start + length) for start, length, _, _ in segments if length)
+        for (_, end1), (start2, _) in zip(ordered, ordered[1:]):
+            if start2 < end1:
+                raise FlipJumpReadFjmException(
+                    f"Bad .fjm file: overlapping segments (address {hex(start2)} is in more than one segment)."
+                )
         for segment_start, segment_length, data_start, data_length in segments:
             # data is laid out as (flip-word, jump-word) op-pairs, so its length must be even
             #  (the relative-jump reconstruction below relies on this).
